@@ -276,11 +276,30 @@ def run(ctx):
                                workers=4, expect='violation', extra_files={'HazardPointer_RA.tla': toggle_module('HazardPointer', tabh, {'a_fence': 'ar'})}, tmo=1500))
     jobs.append(lambda: tlc_mc(ctx, 'ra_toggle_hp_nopublishfence', 'HazardPointer_RA', dict(hp_ra, Ord='<-OrdX'), invariants=['Safe', 'NoDataRace'], view='mcview', constraints=['MsgBound5'],
                                workers=4, expect='violation', extra_files={'HazardPointer_RA.tla': hpt}, tmo=1500))
-    ms_ra = QM.ms_consts(Weak=True, MaxPush=1, MaxPop=1)
-    jobs.append(lambda: tlc_mc(ctx, 'ra_msqueue', 'MSQueue', ms_ra, invariants=['NoDataRace', 'Conservation', 'MemorySafe'], view='mcview', constraints=['MsgBound5'], workers=6, tmo=1500))
-    mst = '---- MODULE MSQueue_RA ----\nEXTENDS MSQueue\nOrdX == [OrdCode EXCEPT !.p_link = "rlx", !.q_acqn = "rlx"]\n====\n'
-    jobs.append(lambda: tlc_mc(ctx, 'ra_toggle_ms_link_rlx', 'MSQueue_RA', dict(ms_ra, Ord='<-OrdX'), invariants=['NoDataRace', 'Conservation', 'MemorySafe'], view='mcview', constraints=['MsgBound5'],
-                               workers=4, expect='violation', extra_files={'MSQueue_RA.tla': mst}, tmo=1500))
+    # ---------------- MSQueue and HarrisMichael: order tables from their step bindings (the guarded loads happen inside the reclaimer: those labels keep OrdCode)
+    build(['queue_ms', 'hm'])
+    keepm = lambda r: r.get('fn', '').startswith('michael_scott_queue::') and 'node::' not in r.get('fn', '')
+    tabm, a, n = step_bind(ctx, 'MSQueue', 'queue_ms', ['ms/nebr0/I;;push1,push2,pop;pop,push3'], QM.ms_consts(NNodes=7, MaxPush=2, MaxPop=2), pb=2, max_exec=12 if q else 600, keep=keepm)
+    bind['MSQueue'] = (a, n); tabs_all['MSQueue'] = tabm
+    ctx.binding.append({'spec': 'MSQueue', 'orders_extracted': {k: sorted(v) for k, v in tabm.items() if v}})
+    modm, _ = ord_module('MSQueue', tabm)
+    ms_ra = QM.ms_consts(Weak=True, MaxPush=1, MaxPop=1, Ord='<-OrdX')
+    INV_MSW = ['NoDataRace', 'Conservation', 'MemorySafe']
+    jobs.append(lambda: tlc_mc(ctx, 'ra_msqueue', 'MSQueue_RA', ms_ra, invariants=INV_MSW, view='mcview', constraints=['MsgBound5'], workers=6, tmo=1500, extra_files={'MSQueue_RA.tla': modm}))
+    jobs.append(lambda: tlc_mc(ctx, 'ra_toggle_ms_link_rlx', 'MSQueue_RA', ms_ra, invariants=INV_MSW, view='mcview', constraints=['MsgBound5'], workers=4, expect='violation',
+                               extra_files={'MSQueue_RA.tla': toggle_module('MSQueue', tabm, {'p_link': 'rlx', 'q_acqn': 'rlx'})}, tmo=1500))
+    from props import hm_models as HMM
+    keeph = lambda r: r.get('fn', '').startswith('harris_michael_list_based_set::') and 'node::' not in r.get('fn', '')
+    tabhm, a, n = step_bind(ctx, 'HarrisMichael', 'hm', ['set/nebr0;emp1,emp3;emp2,era1;con2,era3'], HMM.hm_consts(NNodes=6, Keys0Set='={1, 3}', KeySet='={1, 2, 3}', MaxOps=3), pb=2,
+                            max_exec=40 if q else 600, keep=keeph)
+    bind['HarrisMichael'] = (a, n); tabs_all['HarrisMichael'] = tabhm
+    ctx.binding.append({'spec': 'HarrisMichael', 'orders_extracted': {k: sorted(v) for k, v in tabhm.items() if v}})
+    modhm, _ = ord_module('HarrisMichael', tabhm)
+    hm_ra = HMM.hm_consts(Weak=True, Ord='<-OrdX', MaxOps=1, NNodes=3, Keys0Set='={1}', KeySet='={1, 2}')
+    jobs.append(lambda: tlc_mc(ctx, 'ra_harrismichael', 'HarrisMichael_RA', hm_ra, invariants=['NoDataRace', 'MemorySafe'], view='mcview', constraints=['MsgBound5'], workers=6, tmo=1500,
+                               extra_files={'HarrisMichael_RA.tla': modhm}))
+    jobs.append(lambda: tlc_mc(ctx, 'ra_toggle_hm_insert_cas_rlx', 'HarrisMichael_RA', hm_ra, invariants=['NoDataRace', 'MemorySafe'], view='mcview', constraints=['MsgBound5'], workers=4,
+                               expect='violation', extra_files={'HarrisMichael_RA.tla': toggle_module('HarrisMichael', tabhm, {'x_cas': 'rlx', 'f_acq': 'rlx'})}, tmo=1500))
     # ---------------- thread_block_list: plain next_entry / retired-node links published by release CASes (orders as written in the code)
     TB = 'thread_block_list::'
     tb_sites = {'a_ldh': ('ld', TB + 'adopt_or_create_entry', 0), 'a_ldst': ('ld', TB + 'entry::try_adopt', 0), 'a_cas': ('cas', TB + 'entry::try_adopt', 0),
